@@ -82,6 +82,65 @@ def chunkkeys_range(nb0, nb1, start, stop):
     sx.require(got2 == full[sx.conc(start):], "ChunkKeys.range-open-differs-from-slice")
 
 
+def create_opens_declared_grid(struct, sub, ex, esh, ech, edt):
+    """the create-arrays task for an array declared with shape (4,), chunks (2,) on a store that ALREADY holds an array at the path
+    (to_zarr onto an existing path; a work directory that is reused): the array the tasks will write through must have the
+    declared shape, chunk grid and dtype -- or the computation must stop with an explicit error before any chunk is written.
+    Otherwise the tasks' write regions (declared grid) cut the stored chunks: several writers per stored chunk."""
+    import numpy as np
+
+    import cubed.storage.stores.zarr_python_v3 as zv3
+    from cubed.core.plan import create_zarr_arrays
+    from cubed.storage.zarr import lazy_zarr_array
+    from stubs import zarr_model as zm
+
+    st, sb = sx.conc(struct), sx.conc(sub)
+    path = [None, "sub"][sb]
+    root = zm._join(path)
+    fields = ["n", "total"] if st else []
+    dtype = np.dtype([("n", "i8"), ("total", "f8")]) if st else np.dtype("float64")
+    pre_shape = (sx.conc(esh),)
+    pre_chunks = (sx.conc(ech),)
+    nodes = {}
+    arrays = [zm._join(root, f) for f in fields] if st else [root]
+    if st:
+        nodes[root] = zm.Node("group", None, ex == 1)
+    for i, p in enumerate(arrays):
+        fdt = dtype.fields[fields[i]][0] if st else dtype
+        pre_dt = fdt if sx.conc(edt) == 0 else np.dtype("int32")
+        nodes[p] = zm.Node("array", "written", ex == 1, dict(shape=pre_shape, dtype=pre_dt, chunks=pre_chunks))
+    model = zm.ZarrModel(nodes)
+    lza = lazy_zarr_array("memory://verif", (4,), dtype, (2,), path=path, compressors=None)
+    op = create_zarr_arrays([lza], 10**6, 100)
+    saved = zv3.zarr
+    zv3.zarr = model
+    try:
+        try:
+            for m in op.pipeline.mappable:
+                op.pipeline.function(m, config=op.pipeline.config)
+        except ValueError:
+            # explicit refusal: legitimate only if the existing array really differs from the declaration
+            same = bool(ex == 1) and pre_shape == (4,) and pre_chunks == (2,) and sx.conc(edt) == 0
+            sx.require(not same and bool(ex == 1), "create-task-refuses-a-store-state-left-by-an-earlier-execution", f"pre-state shape {pre_shape} chunks {pre_chunks}")
+            return
+        opened = lza.open()
+        got = [opened[f] for f in fields] if st else [opened]
+        for i, a in enumerate(got):
+            fdt = dtype.fields[fields[i]][0] if st else dtype
+            sx.require(tuple(a.shape) == (4,), "tasks-write-through-an-array-of-another-shape-than-declared", f"{arrays[i]}: stored shape {a.shape}, declared (4,)")
+            sx.require(tuple(a.chunks) == (2,), "tasks-write-through-an-array-with-another-chunk-grid-than-declared",
+                       f"{arrays[i]}: stored chunks {a.chunks}, declared (2,): the tasks' write regions cut stored chunks")
+            sx.require(np.dtype(a.dtype) == fdt, "tasks-write-through-an-array-of-another-dtype-than-declared", f"{arrays[i]}: stored {a.dtype}, declared {fdt}")
+    finally:
+        zv3.zarr = saved
+
+
+def _zm_validate():
+    from stubs import zarr_model as zm
+
+    zm.validate()
+
+
 def obligations(tier):
     import cubed.core.ops as ops
     import importlib
@@ -138,6 +197,24 @@ def obligations(tier):
     for name in ("sum", "concat", "index[slice]", "subtract[different-chunks]", "unstack", "repeat"):
         _, vs = c01.SCENARIOS[name]
         obls.append(Obl(f"grid[{name}]", _catalogue(name), vs(6) + P, bounds="as C01", **common))
+    import cubed.core.plan as cpl
+    import cubed.storage.stores.zarr_python_v3 as zv3
+    import cubed.storage.zarr as csz
+
+    obls.append(Obl("create-opens-declared-grid", create_opens_declared_grid, [("struct", 0, 1), ("sub", 0, 1), ("ex", 0, 1), ("esh", 3, 5), ("ech", 1, 3), ("edt", 0, 1)],
+                    setup=_zm_validate, functions=[cpl.create_zarr_arrays, cpl.create_zarr_array, csz.LazyZarrArray.create, csz.LazyZarrArray.open, zv3.open_zarr_v3_array],
+                    bounds="array declared (4,) / chunks (2,) (plain float64 and a 2-field structured dtype, root and sub-path); the store may already hold an array there with shape 3..5, "
+                           "chunks 1..3, the declared or another dtype (existence is a solver variable)",
+                    outside="what zarr itself does inside create_array/open_array (stubs/zarr_model.py, validated against the installed zarr)", stubs=["stubs/zarr_model.py"], wall_s=120,
+                    witness_rule=lambda m: m["ex"] == 1 and (m["ech"] != 2 or m["esh"] != 4)))
+
+    def ctwin(**kw):
+        create_opens_declared_grid(**kw)
+        if kw["ex"] == 1 and kw["ech"] == 2 and kw["esh"] == 4 and kw["edt"] == 0:
+            raise sx.Violated("reached-end-on-a-matching-existing-array")
+
+    obls.append(Obl("twin:create-opens-declared-grid", ctwin, [("struct", 0, 1), ("sub", 0, 1), ("ex", 0, 1), ("esh", 3, 5), ("ech", 1, 3), ("edt", 0, 1)], setup=_zm_validate,
+                    twin_of="create-opens-declared-grid", wall_s=120))
     obls.append(Obl("chunkkeys.range", chunkkeys_range, [("nb0", 0, 3), ("nb1", 0, 4), ("start", 0, 13), ("stop", 0, 13)],
                     functions=[pb.ChunkKeys, pb.product_from], bounds="block grids up to 3x4, every start/stop", wall_s=wall))
 
